@@ -135,6 +135,18 @@ CLAIMED['C20'] = {
           'one scenario; other backends than python_types for the load check.',
   'design': '7.3 (C20)',
 }
+CLAIMED['C11'] = {
+  'text': 'Order and layout independence, partly proved: ApiNamespace.normalize is proved (z3, with library axiom SORT for list.sort) to leave '
+          'every listing of a namespace -- routes, data types, aliases, annotations, annotation types -- sorted by its key and a permutation of '
+          'what it was: the step that makes the description independent of declaration order. That the resolution passes commute with file '
+          'and definition order is NOT proved: the postcondition from the statement (a canonical signature of the description equals that of '
+          'the reference layout) is checked on a three-namespace spec under generated layouts (file permutations, definition permutations, '
+          'splitting a namespace over 2-4 files, comments, blank lines, trailing whitespace) and, through the mechanically extracted stdin '
+          'block of cli.main (slice main@read_stdin), for the same text delivered on standard input -- BOUNDED stand-ins.',
+  'note': 'Found and fixed: annotation_types not normalised (0646b04), stdin text split at every occurrence of the word namespace '
+          '(F-C11-2). Not covered: continuation-line variants of parenthesised lists, backend output bytes (only the description is compared).',
+  'design': '7.3 (C11)',
+}
 NOT_YET = {
  'C01': 'not decided by this technique in this revision: acceptance <=> language rules is a property of the whole frontend (ply lexer / LALR tables, '
         'the parser actions and the ten resolution passes of ir_generator.py, ~2000 lines over mutable AST/IR graphs), which is outside the Python '
@@ -144,9 +156,6 @@ NOT_YET = {
         'tables equal to the route list) but the passes that build the description are outside the VC generator; not claimed on that basis',
  'C07': 'not decided: needs lemmas over Enc/Dec for pairs of type descriptions including structs and unions; the composite round-trip induction over the '
         'recursive specification functions did not go through the merge-mode evaluator (see C04), so these lemmas are not available',
- 'C11': 'not decided: independence of file / definition order is a property of the resolution passes as a whole (and of stdin splitting in cli.main); no '
-        'function-level contract within reach carries it. The planned contracts on Api.normalize / ApiNamespace.normalize (sortedness) were not built: '
-        'list.sort with a key is not modelled',
  'C12': 'not applicable to this technique: determinism across processes, hash seeds and output directories is a relation between runs; a function '
         'contract can state order-insensitivity of one function over a set, which was planned for the anchor list but needs a model of set iteration '
         'order that the engine does not have',
